@@ -460,7 +460,8 @@ def finalize_iteration(net, niter, residual_norm, nonlinear_method, errors, tols
         converged = error[niter] <= tol
         if not converged: break
         logger.debug("error_%s: %s" % (var, error[niter]))
-    net.converged = converged and residual_norm <= tol_res
+    # plain bool: a numpy bool is written to JSON as the string "false" and read back as True
+    net.converged = bool(converged and residual_norm <= tol_res)
 
 
 def log_final_results(net, solver, niter, residual_norm, solver_vars, tols):
